@@ -171,6 +171,9 @@ pub struct Gen<'a> {
     pub p: &'a Profile,
     pub keys_pool: Vec<DbValue>,
     pub allow_dup: bool,
+    /// true while generating the sub-queries of a transaction: the view is the state BEFORE the transaction, so
+    /// whether a sub-query creates an element is not known; repeated keys are then never generated
+    pub in_tx: bool,
 }
 
 impl Gen<'_> {
@@ -253,6 +256,11 @@ impl Gen<'_> {
         }
         QueryId::Id(DbId(id))
     }
+    /// repeated keys are generated only for queries that certainly update EXISTING elements: numeric ids present in
+    /// the view (an unused alias / id 0 creates an element, for which the repository pins 'both pairs stored')
+    fn dup_ok(&self, ids: &[QueryId], view: &View) -> bool {
+        !self.in_tx && ids.iter().all(|q| matches!(q, QueryId::Id(i) if i.0 != 0 && view.all().contains(&i.0)))
+    }
     fn alias(&mut self) -> String {
         if self.p.bad_inputs && self.rng.chance(1, 25) { String::new() } else { self.rng.pick(&NAMES).to_string() }
     }
@@ -302,7 +310,7 @@ impl Gen<'_> {
             let c = self.rng.range(1, 2) as usize;
             let pool = if p.bad_inputs && self.rng.chance(1, 10) { view.all() } else { view.nodes.clone() };
             let ids: Vec<QueryId> = (0..c).map(|_| self.qid(&pool, view, 8)).collect();
-            self.allow_dup = true;
+            self.allow_dup = self.dup_ok(&ids, view);
             let values = self.values_for(c);
             self.allow_dup = false;
             let aliases = if self.rng.chance(1, 3) { (0..self.rng.range(1, c as u64)).map(|_| self.alias()).collect() } else { vec![] };
@@ -324,7 +332,7 @@ impl Gen<'_> {
             let c = self.rng.range(1, 2) as usize;
             let pool = if p.bad_inputs && self.rng.chance(1, 10) { view.all() } else { view.edges.clone() };
             let ids: Vec<QueryId> = (0..c).map(|_| self.qid(&pool, view, 8)).collect();
-            self.allow_dup = true;
+            self.allow_dup = self.dup_ok(&ids, view);
             let values = self.values_for(c);
             self.allow_dup = false;
             return Some(MQ::InsertEdges(InsertEdgesQuery { from: QueryIds::Ids(vec![]), to: QueryIds::Ids(vec![]), ids: QueryIds::Ids(ids), values, each: false }));
@@ -357,10 +365,7 @@ impl Gen<'_> {
             }
             if ids.is_empty() { return None; }
             // duplicates only when no element is created by this query (id 0 / an alias not in use create nodes)
-            self.allow_dup = ids.iter().all(|q| match q {
-                QueryId::Id(i) => i.0 != 0,
-                QueryId::Alias(a) => view.aliases.iter().any(|(x, _)| x == a),
-            });
+            self.allow_dup = self.dup_ok(&ids, view);
             let values = self.values_for(ids.len());
             self.allow_dup = false;
             return Some(MQ::InsertValues(InsertValuesQuery { ids: QueryIds::Ids(ids), values }));
@@ -653,7 +658,7 @@ pub fn run(args: &Args) {
                 let n = rng.range(1, 4) as usize;
                 let mut qs: Vec<MQ> = vec![];
                 {
-                    let mut g = Gen { rng: &mut rng, p: &profile, keys_pool: std::mem::take(&mut keys_pool), allow_dup: false };
+                    let mut g = Gen { rng: &mut rng, p: &profile, keys_pool: std::mem::take(&mut keys_pool), allow_dup: false, in_tx: true };
                     let mut tries = 0;
                     while qs.len() < n && tries < 20 {
                         tries += 1;
@@ -686,7 +691,7 @@ pub fn run(args: &Args) {
                 trace.emit(ev);
             } else {
                 let q = {
-                    let mut g = Gen { rng: &mut rng, p: &profile, keys_pool: std::mem::take(&mut keys_pool), allow_dup: false };
+                    let mut g = Gen { rng: &mut rng, p: &profile, keys_pool: std::mem::take(&mut keys_pool), allow_dup: false, in_tx: false };
                     let q = g.mutation(&view);
                     keys_pool = g.keys_pool;
                     q
